@@ -73,6 +73,16 @@ func main() {
 			fmt.Println("LOAD FAILURE:", err)
 			os.Exit(1)
 		}
+		w.AllFuncs()
+		theWorld = w
+		if os.Getenv("VERIF_CENSUS") != "" {
+			if v := os.Getenv("VERIF_CENSUS"); len(v) == 3 {
+				printDerivedList(w, v)
+				return
+			}
+			printDerivedCensus(w)
+			return
+		}
 		if err := printAnchorFuncs(w, "/verif/properties.jsonl"); err != nil {
 			fmt.Println(err)
 			os.Exit(1)
